@@ -30,6 +30,7 @@ Require Import V.Proofs.C04Bytes.
 Require Import V.Proofs.C04XBytes.
 Require Import V.Model.PubGetters.
 Require Import V.Proofs.C04Getters.
+Require Import V.Proofs.C04LimitContract.
 Open Scope Z_scope.
 
 (* every reachable state satisfies the invariant the other statements are proved from *)
@@ -370,6 +371,88 @@ Theorem C04_oracle_getters_exclusive : forall m rv h ops x0,
              (pub_statics (xlog x0), xpub_getters m x0 :: xpub_gets_trace m rv x0 ops) = true.
 Proof. exact oracle_gets_exclusive. Qed.
 Print Assumptions C04_oracle_getters_exclusive.
+
+(* ---- the limit contract (`limit_ok`: limit <= TL*2^31 + TL/2), examined (round 3) ----
+   Negative limits, limits below the position, i64::MIN: always inside the contract (it is an upper bound only).
+   The exclusive publication does not need the contract at all: `xreachable_any` = histories whose SetLimit operations carry any
+   value whatsoever; every statement above holds for them *)
+Theorem C04_exclusive_any_limit_invariant : forall m rv x, xreachable_any m rv x -> exists n, xpub_inv n x /\ xtail_ok n x.
+Proof. exact xreachable_any_inv. Qed.
+Print Assumptions C04_exclusive_any_limit_invariant.
+
+Theorem C04_exclusive_any_limit_accept : forall m rv x, xreachable_any m rv x -> forall o x' p,
+  op_ok (xlog x) o -> is_xappend o = true -> xpub_step m rv x o = (x', Ok p) ->
+  exists b, xpub_position m x = Ok b /\ b < l_limit (xlog x) /\ ps_closed (x_pub x) = false /\ op_too_long (xlog x) o = false /\
+            p = b + op_required (xlog x) o /\ xpub_position m x' = Ok p /\ 0 <= p <= l_tlen (xlog x) * two31.
+Proof. exact c04x_any_accept. Qed.
+Print Assumptions C04_exclusive_any_limit_accept.
+
+Theorem C04_exclusive_any_limit_refuse_pure : forall m rv x, xreachable_any m rv x -> forall o x' e,
+  op_ok (xlog x) o -> is_xappend o = true -> xpub_step m rv x o = (x', Err e) ->
+  (e = BackPressured \/ e = NotConnected \/ e = Closed \/ e = TooLong) -> x' = x.
+Proof. exact c04x_any_refuse_pure. Qed.
+Print Assumptions C04_exclusive_any_limit_refuse_pure.
+
+Theorem C04_exclusive_any_limit_refuse_at_limit : forall m rv x, xreachable_any m rv x -> forall o b,
+  op_ok (xlog x) o -> is_xappend o = true -> ps_closed (x_pub x) = false ->
+  xpub_position m x = Ok b -> l_limit (xlog x) <= b ->
+  xpub_step m rv x o =
+    (x, Err (match o with
+             | Claim len => if max_payload_length (xlog x) <? len then TooLong else status_of (xlog x) b len
+             | _ => status_of (xlog x) b (op_len o) end)).
+Proof. exact c04x_any_refuse_at_limit. Qed.
+Print Assumptions C04_exclusive_any_limit_refuse_at_limit.
+
+Theorem C04_exclusive_any_limit_max : forall m rv x, xreachable_any m rv x -> ps_closed (x_pub x) = false ->
+  exists p, xpub_position m x = Ok p /\ 0 <= p <= l_tlen (xlog x) * two31.
+Proof. exact c04x_any_max. Qed.
+Print Assumptions C04_exclusive_any_limit_max.
+
+Theorem C04_exclusive_any_limit_total : forall m rv x, xreachable_any m rv x -> forall o, op_ok (xlog x) o -> is_xappend o = true ->
+  match snd (xpub_step m rv x o) with
+  | Ok _ | Err BackPressured | Err NotConnected | Err AdminAction | Err MaxPositionExceeded | Err Closed | Err TooLong => True
+  | _ => False
+  end.
+Proof. exact c04x_any_total. Qed.
+Print Assumptions C04_exclusive_any_limit_total.
+
+Theorem C04_exclusive_any_limit_trip : forall m rv x, xreachable_any m rv x -> forall o x' e,
+  op_ok (xlog x) o -> is_xappend o = true -> xpub_step m rv x o = (x', Err e) -> x' <> x ->
+  exists n, xpub_inv n x /\ ps_closed (x_pub x) = false /\ xspec_pos x < l_limit (xlog x) /\
+    l_tlen (xlog x) < x_off x + op_required (xlog x) o /\
+    ((e = AdminAction /\ n < two31 - 1 /\
+      xlog x' = rotated (xbumped (xlog x) (x_idx x) (x_tid x) (x_off x) (op_required (xlog x) o)) n) \/
+     (e = MaxPositionExceeded /\ n = two31 - 1 /\
+      xlog x' = xbumped (xlog x) (x_idx x) (x_tid x) (x_off x) (op_required (xlog x) o))).
+Proof. exact c04x_any_trip. Qed.
+Print Assumptions C04_exclusive_any_limit_trip.
+
+Theorem C04_exclusive_any_limit_oracle_flow : forall m rv x, xreachable_any m rv x -> forall o x0 r0 n0 off0,
+  op_ok (xlog x) o -> is_xappend o = true ->
+  flow_append (geom_of (xlog x) n0 off0) (env_of (x_pub x)) (kind_of o) (op_len o)
+              (xpub_obs m x0 x r0) (xpub_obs m x (fst (xpub_step m rv x o)) (snd (xpub_step m rv x o))) = true.
+Proof. exact c04x_any_oracle_flow. Qed.
+Print Assumptions C04_exclusive_any_limit_oracle_flow.
+
+(* The shared publication needs it.  With the limit far beyond the end of the position space every claim made after the last
+   term is full is refused with MaxPositionExceeded but still bumps the shared tail counter (fetch-add comes first, as in the
+   upstream clients); a history that is legal in every respect except the contract - hand-over at the end of the last term of a
+   1 KiB-term log, limit := 2^62, then 67108832 claims of zero bytes - brings the 32-bit offset to 2^31, and the next claim of zero
+   bytes panics in the debug build (term count + 1 overflows) and, in the release build, rotates the log out of the last term,
+   reports AdminAction and leaves the active term count at -2^31.  So `limit_ok` cannot be dropped from C04_total / C04_trip /
+   C04_max for the shared publication; it is what the driver guarantees (limit = consumer position + term window <= TL/2). *)
+Theorem C04_limit_contract_needed :
+  (exists bits, 10 <= bits <= 30 /\ 1024 = 2 ^ bits) /\
+  (exists k, Z.of_nat k = 67108832 /\
+     let ops := SetLimit WLIMIT :: repeat (Claim 0) k in
+     Forall op_ok_any ops /\
+     pub_run Debug harness_rv (pub_init wl0) ops = wstate 67108832 /\
+     pub_run Release harness_rv (pub_init wl0) ops = wstate 67108832) /\
+  snd (pub_step Debug harness_rv (wstate 67108832) (Claim 0)) = Panic /\
+  snd (pub_step Release harness_rv (wstate 67108832) (Claim 0)) = Err AdminAction /\
+  l_count (ps_log (fst (pub_step Release harness_rv (wstate 67108832) (Claim 0)))) = - two31.
+Proof. exact limit_contract_needed. Qed.
+Print Assumptions C04_limit_contract_needed.
 
 (* non-vacuity: a history that trips at the end of a term, rotates, fragments a message, claims and commits *)
 Example C04_history_example :
